@@ -15,6 +15,7 @@ RULE = (
     'parameters. Non-trivial: >=2 sub-model dimensions with a special (pooled/heterogeneous/non-centred/covariate/'
     'truncated) dimension not in last position and n_ids >= 2. Distinct = structural projection of composition, '
     'n_ids, likelihood structure, id style.')
+RULE += (' ' + 'Added: one vector object updated in place between evaluations and restored (every value must follow the current content); far-tail truncated Gaussian parts (mu/sigma in [-8,-4]).')
 ASSUMPTIONS = [
     'analytic mechanistic model is harness code; reference densities and the layout model are written from the '
     'docstrings of HierarchicalLogLikelihood.__call__/get_parameter_names and of the population models',
